@@ -155,6 +155,15 @@ def gen_project(r, impl, legacy=False, max_files=5, allow_mixed=True, n_files=No
     return dict(vp=vp, flags=list(flags), old=old, files=files, date=d, legacy=legacy, cfg_prefix=r.choice(CFG_PREFIXES), key_comment=r.random() < 0.25, dot_slash=r.random() < 0.5)
 
 
+def avoid_week53(vp, d):
+    """strftime %W / %U reach 53 on a few days (2018-12-31, 2035-12-31 ...), which the WW/0W/UU/0U parts cannot render readably: the recorded
+    C02 finding.  The rewrite-level checks are not about it: such a bump date is moved on by a week."""
+    import datetime as dt
+    while (any(x in vp for x in ("WW", "0W")) and d.strftime("%W") == "53") or (any(x in vp for x in ("UU", "0U")) and d.strftime("%U") == "53"):
+        d = d + dt.timedelta(days=7)
+    return d
+
+
 def scripted_specs():
     """Hand-built projects that run before the generated ones: layouts found by reading seeded changes that the random
     generator reaches only rarely."""
